@@ -692,3 +692,155 @@ Section JoinerPres2.
     - exact H0.
   Qed.
 End JoinerPres2.
+
+(* ---------- C12, the task-group part: a cancelled join ends cancelled ---------- *)
+Definition ended (g : tg) : bool := match pc g with JEnded _ _ _ => true | _ => false end.
+(* a cancellation of the joining task is on its way *)
+Definition CancelPending (g : tg) : Prop :=
+  ended g = false /\
+  (must_cancel g = true \/ wake g = Some true \/ (jexc g = true /\ pc g = JCancelAll)).
+Definition EndedCancelled (g : tg) : Prop := exists e j, pc g = JEnded true e j.
+
+Lemma cancel_tasks_jfields g ord :
+  jexc (cancel_tasks g ord) = jexc g /\ must_cancel (cancel_tasks g ord) = must_cancel g /\
+  wake (cancel_tasks g ord) = wake g.
+Proof.
+  unfold cancel_tasks.
+  assert (F : forall (f : tg -> N -> tg),
+            (forall g t, jexc (f g t) = jexc g /\ must_cancel (f g t) = must_cancel g /\ wake (f g t) = wake g) ->
+            forall l g, jexc (fold_left f l g) = jexc g /\ must_cancel (fold_left f l g) = must_cancel g /\
+                        wake (fold_left f l g) = wake g).
+  { intros f Hf. induction l as [|t l IH]; intros g0; cbn; [auto|]. destruct (IH (f g0 t)) as (-> & -> & ->). apply Hf. }
+  destruct (F register_pop) with (l := ord) (g := fold_left cancel_member ord g) as (-> & -> & ->).
+  { intros g0 t. unfold register_pop. destruct (get t (members g0)); auto. destruct (m_status m); auto. }
+  apply F. intros g0 t. unfold cancel_member. destruct (get t (members g0)); auto. destruct (m_status m); auto.
+Qed.
+
+Lemma cancel_joiner_pending g : ended g = false -> CancelPending (cancel_joiner g).
+Proof.
+  unfold ended, cancel_joiner, CancelPending. intros He.
+  destruct (pc g) eqn:Ep; try discriminate; try (split; [cbn; now rewrite Ep|cbn; auto]);
+    destruct (wake g); split; cbn; rewrite ?Ep; auto.
+Qed.
+
+Lemma j_finally_exc g order : jexc (j_finally g order true) = true /\
+  (pc (j_finally g order true) = JEnded true true true \/ pc (j_finally g order true) = JCancelAll).
+Proof.
+  unfold j_finally. cbv zeta.
+  match goal with |- context [match ?x with [] => _ | _ => _ end] => destruct x end; cbn; auto.
+Qed.
+
+(* steps other than the joining task's own keep a pending cancellation pending *)
+Lemma sem_release_jfields g :
+  must_cancel (sem_release g) = must_cancel g /\ jexc (sem_release g) = jexc g /\ pc (sem_release g) = pc g /\
+  (wake g = Some true -> wake (sem_release g) = Some true).
+Proof.
+  unfold sem_release. cbn. destruct (pc g) eqn:Ep, (wake g) as [[]|] eqn:Ew; cbn; rewrite ?Ep, ?Ew; repeat split; auto;
+    try (intros H; discriminate H).
+Qed.
+
+Lemma on_done_jfields g t :
+  must_cancel (on_done g t) = must_cancel g /\ jexc (on_done g t) = jexc g /\ pc (on_done g t) = pc g /\
+  (wake g = Some true -> wake (on_done g t) = Some true).
+Proof.
+  unfold on_done. destruct (get t (members g)); [|repeat split; auto]. destruct (m_daemon m); [repeat split; auto|].
+  match goal with |- context [sem_release ?G] => destruct (sem_release_jfields G) as (-> & -> & -> & H) end.
+  repeat split; auto.
+Qed.
+
+Lemma pop_jfields g t :
+  must_cancel (run_cb g (Pop t)) = must_cancel g /\ jexc (run_cb g (Pop t)) = jexc g /\
+  pc (run_cb g (Pop t)) = pc g /\ (wake g = Some true -> wake (run_cb g (Pop t)) = Some true).
+Proof.
+  cbn [run_cb]. cbv zeta. cbn [pc wake upd_joiner].
+  destruct (removeN t (unfinished g)); destruct (pc g) eqn:Ep; destruct (wake g) as [[]|] eqn:Ew; cbn;
+    rewrite ?Ep, ?Ew; repeat split; auto; try (intros H; discriminate H).
+Qed.
+
+Lemma pending_kept g g' : CancelPending g -> must_cancel g' = must_cancel g -> jexc g' = jexc g -> pc g' = pc g ->
+  (wake g = Some true -> wake g' = Some true) -> CancelPending g'.
+Proof.
+  intros [He Hc] H1 H2 H3 H4. split; [unfold ended in *; now rewrite H3|]. rewrite H1, H2, H3.
+  destruct Hc as [Hc|[Hc|Hc]]; auto.
+Qed.
+
+Theorem cancel_pending_step g l : CancelPending g -> CancelPending (step g l) \/ EndedCancelled (step g l).
+Proof.
+  intros Hp. destruct l as [t d al|t o|t| | |h order]; cbn [step].
+  - left. unfold add_task. destruct (add_refused_after_join && joined g); [exact Hp|].
+    destruct (get t (members g)); [exact Hp|].
+    destruct (match al with Some o => Fin o | None => Run end); cbn [fst];
+      try (destruct d; apply (pending_kept g); auto; fail).
+    match goal with |- CancelPending (on_done ?G t) => destruct (on_done_jfields G t) as (H1 & H2 & H3 & H4) end.
+    apply (pending_kept g); auto.
+  - left. unfold finish_member. destruct (get t (members g)); [|exact Hp].
+    destruct (m_status m); try exact Hp; destruct (m_daemon m); apply (pending_kept g); auto.
+  - left. unfold cancel_member. destruct (get t (members g)); [|exact Hp].
+    destruct (m_status m); try exact Hp; apply (pending_kept g); auto.
+  - left. destruct (pc g) eqn:Ep; try exact Hp. destruct (wake g) eqn:Ew; [exact Hp|].
+    apply (pending_kept g); auto. cbn. congruence.
+  - left. apply cancel_joiner_pending. apply Hp.
+  - destruct (queue g) as [|h0 rest]; [now left|]. cbv zeta.
+    assert (Hp1 : CancelPending (upd_queue g rest)) by (apply (pending_kept g); auto).
+    destruct h0 as [[t|t]|].
+    + left. cbn [run_cb]. destruct (on_done_jfields (upd_queue g rest) t) as (H1 & H2 & H3 & H4).
+      apply (pending_kept (upd_queue g rest)); auto.
+    + left. destruct (pop_jfields (upd_queue g rest) t) as (H1 & H2 & H3 & H4).
+      apply (pending_kept (upd_queue g rest)); auto.
+    + (* the joining task runs *)
+      set (g1 := upd_queue g rest) in *. destruct Hp1 as [He Hc]. unfold joiner_step. cbv zeta.
+      set (cancelled := must_cancel g1 || match wake g1 with Some true => true | _ => false end).
+      set (g0 := upd_joiner g1 (pc g1) (entered g1) (granted g1) None false (jexc g1) (unfinished g1) (joined g1)
+                            (completed g1) (consumed g1)).
+      destruct cancelled eqn:Ec.
+      * (* the CancelledError is thrown into the coroutine *)
+        change (pc g0) with (pc g1). unfold ended in He. destruct (pc g1) eqn:Ep; try discriminate.
+        -- right. exists false, false. reflexivity.
+        -- match goal with |- context [j_finally ?G order true] => destruct (j_finally_exc G order) as (Hj & [Hpc|Hpc]) end.
+           ++ right. exists true, true. exact Hpc.
+           ++ left. split; [unfold ended; now rewrite Hpc|]. right. right. auto.
+        -- right. exists false, false. reflexivity.
+        -- right. exists true, false. reflexivity.
+      * (* not cancelled at this step: the exception is already travelling through join's finally *)
+        assert (Hm : must_cancel g1 = false /\ wake g1 <> Some true).
+        { unfold cancelled in Ec. apply orb_false_iff in Ec as [E1 E2]. split; auto. intros E. now rewrite E in E2. }
+        destruct Hc as [Hc|[Hc|[Hj Hpc]]]; [destruct Hm; congruence|destruct Hm; congruence|].
+        change (pc g0) with (pc g1). rewrite Hpc.
+        match goal with |- context [match ?x with [] => _ | _ => _ end] => destruct x as [|x0 xs] end.
+        -- right. exists true, true. unfold end_join. cbn [pc upd_joiner]. change (jexc g0) with (jexc g1).
+           now rewrite Hj.
+        -- left. destruct (cancel_tasks_jfields g0 (x0 :: xs)) as (E1 & E2 & E3).
+           split; [reflexivity|]. right. right. cbn [pc jexc upd_joiner]. split; [|reflexivity]. rewrite E1. exact Hj.
+Qed.
+
+Lemma ended_cancelled_stays g l : EndedCancelled g -> EndedCancelled (step g l).
+Proof.
+  intros (e & j & Ep). exists e, j. destruct l as [t d al|t o|t| | |h order]; cbn [step].
+  - unfold add_task. destruct (add_refused_after_join && joined g); [exact Ep|].
+    destruct (get t (members g)); [exact Ep|].
+    destruct (match al with Some o => Fin o | None => Run end); cbn [fst]; try (destruct d; exact Ep).
+    match goal with |- pc (on_done ?G t) = _ => destruct (on_done_jfields G t) as (_ & _ & -> & _) end. exact Ep.
+  - unfold finish_member. destruct (get t (members g)); [|exact Ep].
+    destruct (m_status m); try exact Ep; destruct (m_daemon m); exact Ep.
+  - unfold cancel_member. destruct (get t (members g)); [|exact Ep]. destruct (m_status m); exact Ep.
+  - rewrite Ep. exact Ep.
+  - unfold cancel_joiner. rewrite Ep. exact Ep.
+  - destruct (queue g) as [|h0 rest]; [exact Ep|]. cbv zeta. destruct h0 as [[t|t]|].
+    + cbn [run_cb]. destruct (on_done_jfields (upd_queue g rest) t) as (_ & _ & -> & _). exact Ep.
+    + destruct (pop_jfields (upd_queue g rest) t) as (_ & _ & -> & _). exact Ep.
+    + unfold joiner_step. cbv zeta. cbn [pc upd_joiner upd_queue]. rewrite Ep. cbn. rewrite ?Ep. reflexivity.
+Qed.
+
+(* once task.cancel() has been called on a joining task that had not ended, it can only end cancelled *)
+Theorem cancelled_join_ends_cancelled g ls : ended g = false ->
+  forall c e j, pc (fold_left step ls (step g LCancelJoiner)) = JEnded c e j -> c = true.
+Proof.
+  intros He. pose proof (cancel_joiner_pending g He) as Hp. change (cancel_joiner g) with (step g LCancelJoiner) in Hp.
+  assert (H : forall ls g0, CancelPending g0 \/ EndedCancelled g0 ->
+                            CancelPending (fold_left step ls g0) \/ EndedCancelled (fold_left step ls g0)).
+  { induction ls0 as [|l ls0 IH]; intros g0 H0; cbn [fold_left]; [exact H0|]. apply IH.
+    destruct H0 as [H0|H0]; [apply cancel_pending_step; exact H0|right; apply ended_cancelled_stays; exact H0]. }
+  intros c e j E. destruct (H ls _ (or_introl Hp)) as [[Hn _]|(e' & j' & E')].
+  - unfold ended in Hn. rewrite E in Hn. discriminate.
+  - rewrite E in E'. now injection E' as ->.
+Qed.
